@@ -254,4 +254,22 @@ class C04(IRProp):
         return bad
 
 
+    def oracle(self, tier, ctx, boosted):
+        import random
+
+        from harness import ctxlevel
+        from vlib import common as C
+        res = super().oracle(tier, ctx, boosted)
+        # patches with symbolic operands on every target (wrappers, addends, GOT / PLT forms): expression, addend, attributes, size entry
+        rnd = C.rng("c04-exprs" + ("-boost" if boosted else ""))
+        for _ in range({"quick": 400, "thorough": 4000}["thorough" if boosted else tier]):
+            sd = rnd.randrange(1 << 30)
+            w = ctxlevel.patch_expressions(random.Random(sd))
+            res["evaluations"] += 1
+            if w:
+                res["violations"].append(dict(what=w, input={"patch_expressions_seed": sd}, finding=None))
+        res["violations"] = [b for b in res["violations"] if b["finding"] is None][:10] + [b for b in res["violations"] if b["finding"] is not None][:5]
+        return res
+
+
 PROP = C04()
